@@ -350,6 +350,7 @@ def mutants():
     B = "treewalkers/base.py"
     E = "treewalkers/etree.py"
     return [
+        T("dom-attr-localname", "treewalkers/dom.py", "                if attr.namespaceURI:\n                    attrs[(attr.namespaceURI, attr.localName)] = attr.value\n                else:\n                    attrs[(None, attr.name)] = attr.value", "                attrs[(attr.namespaceURI or None, attr.localName)] = attr.value", "R11.3"),
         T("void-adds-keygen-unhandled", "constants.py", "    \"wbr\",\n])", "    \"wbr\",\n    \"spacer\",\n])", "R11.7"),
         T("clark-greedy-walker", "treewalkers/etree.py", 'tag_regexp = re.compile("{([^}]*)}(.*)")', 'tag_regexp = re.compile("{(.*)}(.*)")', "R11.6"),
         T("clark-greedy-builder", "treebuilders/etree.py", 'tag_regexp = re.compile("{([^}]*)}(.*)")', 'tag_regexp = re.compile("{(.+)}(.*)")', "R11.6"),
